@@ -1,4 +1,4 @@
-(* Soundness of walk_exists / walk_forall (pruning of unused variables, equality elimination) and the main theorem. *)
+(* Soundness of walk_exists / walk_forall G (pruning of unused variables, equality elimination) and the main theorem. *)
 From Coq Require Import List ZArith NArith QArith Qcanon Bool Lia.
 Import ListNotations.
 Require Import UPV.Core.Expr UPV.Core.Eval UPV.Proofs.Eval_lemmas UPV.Walkers.Simplify UPV.Proofs.Simplify_base
@@ -36,44 +36,44 @@ Section Quant.
   Notation eok := (env_ok G tau QT).
 
   (* ---------------------------------------------------------------- pruning of unused variables *)
-  Lemma sound_prune ex I S vs b : eok I -> wf S (EQ ex vs b) = true -> R I I (EQ ex vs b) (EQ ex (prune vs b) b).
+  Lemma sound_prune ex I S vs b : eok I -> wf S (EQ ex vs b) = true -> R I I (EQ ex vs b) (EQ ex (prune G vs b) b).
   Proof.
     intros E W. assert (W' : binders_ok tau QT S vs && wf (map fst vs ++ S) b = true) by (destruct ex; exact W).
     apply andb_true_iff in W'. destruct W' as [W1 W2]. apply binders_ok_spec in W1. destruct W1 as [A ND].
-    assert (ND0 : NoDup (map fst (prune vs b))) by (apply NoDup_map_filter; exact ND).
-    assert (Hsub : forall w, In w (map fst (prune vs b)) -> In w (map fst vs)).
-    { intros w Hw. apply in_map_iff in Hw. destruct Hw as [p [<- Hp]]. apply in_map. apply (prune_incl _ _ _ Hp). }
-    assert (Hfv : forall w, In w (free_vars b) -> In w (map fst vs) -> In w (map fst (prune vs b))).
+    assert (ND0 : NoDup (map fst (prune G vs b))) by (apply NoDup_map_filter; exact ND).
+    assert (Hsub : forall w, In w (map fst (prune G vs b)) -> In w (map fst vs)).
+    { intros w Hw. apply in_map_iff in Hw. destruct Hw as [p [<- Hp]]. apply in_map. apply (prune_incl _ _ _ _ Hp). }
+    assert (Hfv : forall w, In w (free_vars b) -> In w (map fst vs) -> In w (map fst (prune G vs b))).
     { intros w Hw Hin. apply in_map_iff in Hin. destruct Hin as [p [<- Hp]]. apply in_map. apply filter_In.
-      split; [exact Hp|apply memN_In; exact Hw]. }
+      split; [exact Hp|apply orb_true_iff; left; apply memN_In; exact Hw]. }
     apply cong_EQ.
     - intros J' HJ'. destruct (inst_sound _ ND0 I J' HJ') as [g' [HT' HA']].
-      set (g := fun w => if memN w (map fst (prune vs b)) then g' w else hd 0%N (objs I (tau w))).
+      set (g := fun w => if memN w (map fst (prune G vs b)) then g' w else hd 0%N (objs I (tau w))).
       assert (HT : typed_for I vs g).
       { intros p Hp. destruct (A p Hp) as (A1 & A2 & A3). unfold g.
-        destruct (memN (fst p) (map fst (prune vs b))) eqn:M.
+        destruct (memN (fst p) (map fst (prune G vs b))) eqn:M.
         - apply memN_In in M. apply in_map_iff in M. destruct M as [p' [E' Hp']].
-          assert (Hp'' := prune_incl _ _ _ Hp'). destruct (A p' Hp'') as (B1 & _ & _).
+          assert (Hp'' := prune_incl _ _ _ _ Hp'). destruct (A p' Hp'') as (B1 & _ & _).
           rewrite <- E'. rewrite A1, <- E', <- B1. apply HT'. exact Hp'.
         - rewrite A1. apply hd_In. apply (ok_inh _ _ _ _ E). rewrite <- A1. exact A2. }
-      destruct (inst_transfer I (prune vs b) vs g' g (fun w => In w (free_vars b)) J' ND HA' HT) as [J [HJ HAg]].
-      { intros w Hw. unfold g. destruct (memN w (map fst (prune vs b))) eqn:M1.
+      destruct (inst_transfer I (prune G vs b) vs g' g (fun w => In w (free_vars b)) J' ND HA' HT) as [J [HJ HAg]].
+      { intros w Hw. unfold g. destruct (memN w (map fst (prune G vs b))) eqn:M1.
         - apply memN_In in M1. assert (M2 := Hsub w M1). apply memN_In in M2. rewrite M2. reflexivity.
         - destruct (memN w (map fst vs)) eqn:M2; [|reflexivity]. apply memN_In in M2. apply memN_false in M1.
           exfalso. apply M1. apply Hfv; assumption. }
       exists J. split; [exact HJ|]. apply (agree_R (fun w => In w (free_vars b))); [auto|].
       destruct HAg as [X Y]. split; [apply ieq_sym; exact X|]. intros w Hw. symmetry. apply Y. exact Hw.
     - intros J HJ. destruct (inst_sound _ ND I J HJ) as [g [HT HA']].
-      assert (HT0 : typed_for I (prune vs b) g) by (intros p Hp; apply HT; apply (prune_incl _ _ _ Hp)).
-      destruct (inst_transfer I vs (prune vs b) g g (fun w => In w (free_vars b)) J ND0 HA' HT0) as [J' [HJ' HAg]].
+      assert (HT0 : typed_for I (prune G vs b) g) by (intros p Hp; apply HT; apply (prune_incl _ _ _ _ Hp)).
+      destruct (inst_transfer I vs (prune G vs b) g g (fun w => In w (free_vars b)) J ND0 HA' HT0) as [J' [HJ' HAg]].
       { intros w Hw. destruct (memN w (map fst vs)) eqn:M2.
         - apply memN_In in M2. assert (M1 := Hfv w Hw M2). apply memN_In in M1. rewrite M1. reflexivity.
-        - destruct (memN w (map fst (prune vs b))) eqn:M1; [|reflexivity]. apply memN_In in M1. apply Hsub in M1.
+        - destruct (memN w (map fst (prune G vs b))) eqn:M1; [|reflexivity]. apply memN_In in M1. apply Hsub in M1.
           apply memN_In in M1. congruence. }
       exists J'. split; [exact HJ'|]. apply (agree_R (fun w => In w (free_vars b))); auto.
   Qed.
 
-  Lemma sound_walk_forall I S vs b : eok I -> wf S (EForall vs b) = true -> R I I (EForall vs b) (walk_forall vs b).
+  Lemma sound_walk_forall I S vs b : eok I -> wf S (EForall vs b) = true -> R I I (EForall vs b) (walk_forall G vs b).
   Proof.
     intros E W. unfold walk_forall. eapply R_trans; [apply (sound_prune false I S vs b E W)|apply mkForall_R].
   Qed.
@@ -248,10 +248,10 @@ Section Quant.
     eok I -> wf S (EExists vs b) = true -> R I I (EExists vs b) (walk_exists G rs vs b).
   Proof.
     intros Hrs E W. unfold walk_exists.
-    assert (W0 := wf_quant_prune tau QT true vs b S W). cbn [EQ] in W0.
+    assert (W0 := wf_quant_prune tau QT G true vs b S W). cbn [EQ] in W0.
     assert (R0 := sound_prune true I S vs b E W). cbn [EQ] in R0.
-    destruct (elim_step G (prune vs b) b) as [p|] eqn:ES.
-    - destruct (elim_loop G (length (prune vs b)) (prune vs b) b) as [vs1 b1] eqn:L.
+    destruct (elim_step G (prune G vs b) b) as [p|] eqn:ES.
+    - destruct (elim_loop G (length (prune G vs b)) (prune G vs b) b) as [vs1 b1] eqn:L.
       eapply R_trans; [exact R0|]. eapply R_trans; [eapply sound_elim_loop; eauto|].
       eapply R_trans; [apply mkExists_R|]. apply (Hrs _ S); [|exact E].
       apply wf_mkExists. eapply wf_elim_loop; eauto.
